@@ -397,8 +397,6 @@ func c05WaitGoroutines(base int, d time.Duration) int {
 	}
 }
 
-var c05CloserMissing bool
-
 type c05Discard struct{}
 
 func (c05Discard) Write(p []byte) (int, error) { return len(p), nil }
@@ -471,7 +469,7 @@ func c05RunScripted(c c05Case) (res c05Res) {
 	wgDone := make(chan struct{})
 	go func() { wg.Wait(); close(wgDone) }()
 
-	const step = 3 * time.Second
+	const step = 10 * time.Second
 	hang := false
 	closerSpawned := func(main string) bool {
 		s := ctl.state(main)
@@ -481,26 +479,26 @@ func c05RunScripted(c c05Case) (res c05Res) {
 	// settle waits until the number of live goroutines is what the thread states imply, i.e. every
 	// goroutine that has been let past its last call has really ended (its writes to the shared
 	// statistics are done) before the next call is granted.
+	expected := func() int {
+		exp := base
+		alive := 0
+		for _, m := range tids {
+			if ctl.state(m) != "finished" {
+				alive++
+			}
+			if closerSpawned(m) && !closerGone[m+"c"] {
+				exp++
+			}
+		}
+		exp += alive
+		if alive > 0 {
+			exp++ // the WaitGroup waiter
+		}
+		return exp
+	}
 	settle := func() {
-		end := time.Now().Add(300 * time.Millisecond)
-		for {
-			exp := base
-			alive := 0
-			for _, m := range tids {
-				if ctl.state(m) != "finished" {
-					alive++
-				}
-				if closerSpawned(m) && !closerGone[m+"c"] {
-					exp++
-				}
-			}
-			exp += alive
-			if alive > 0 {
-				exp++ // the WaitGroup waiter
-			}
-			if c05Goroutines() <= exp || time.Now().After(end) {
-				return
-			}
+		end := time.Now().Add(3 * time.Second)
+		for c05Goroutines() > expected() && time.Now().Before(end) {
 			time.Sleep(20 * time.Microsecond)
 		}
 	}
@@ -517,17 +515,26 @@ func c05RunScripted(c c05Case) (res c05Res) {
 			if !closerSpawned(main) || closerGone[t] {
 				return true
 			}
-			wait := 500 * time.Millisecond
-			if c05CloserMissing {
-				wait = 5 * time.Millisecond
-			}
-			if _, ok := ctl.waitQuiescent(t, wait); !ok {
-				// the direction is at (or past) its teardown but no source closer shows up: it
-				// was never started.  Not a hang; the connection simply stays unclosed.
-				c05CloserMissing = true
-				closerGone[t] = true
-				ctl.finish(t)
-				return true
+			// The closer goroutine exists from the moment the direction reached its teardown (the go
+			// statement has run), even if it has not been scheduled yet: the goroutine count tells.
+			deadline := time.Now().Add(step)
+			low := 0
+			for ctl.state(t) == "" {
+				if c05Goroutines() < expected() {
+					low++
+				} else {
+					low = 0
+				}
+				if low >= 20 {
+					// no source closer was ever started.  Not a hang; the connection stays unclosed.
+					closerGone[t] = true
+					ctl.finish(t)
+					return true
+				}
+				if time.Now().After(deadline) {
+					return false
+				}
+				time.Sleep(100 * time.Microsecond)
 			}
 			ctl.grant(t)
 			ctl.finish(t)
